@@ -109,6 +109,9 @@ func Gen(rt *rapid.T, maxRounds int, withPrune bool) *Script {
 					vs = append(vs, prev.Version)
 				}
 				rd.PruneBelow = gen.Pick(rt, vs, "pvr")
+			} else if gen.Chance(rt, 25, "pvbeyond") {
+				// a prune version well beyond the newest round (everything so far may go; rounds saved later lie below it)
+				rd.PruneBelow = version + int64(gen.Uniform(rt, 2, 8, "pvb"))
 			} else {
 				rd.PruneBelow = int64(gen.Uniform(rt, 1, int(version)+1, "pv"))
 			}
